@@ -10,8 +10,10 @@ import (
 	"encoding/json"
 	mrand "math/rand"
 	"os"
+	"runtime"
 	"sort"
 	"sync"
+	"sync/atomic"
 	"testing"
 )
 
@@ -68,6 +70,15 @@ func TestZZVStreamIdReplay(t *testing.T) {
 			continue
 		}
 		for si, st := range path.Steps {
+			if st.A.Act == "Close" {
+				steps++ // closing a connection end does not touch its allocator
+				if !zzvSidSame(p.state(), st.T) {
+					mism++
+					zzvEmit("mismatch", map[string]any{"path": pi, "step": si, "a": st.A, "spec_t": st.T, "real_t": p.state()})
+					break
+				}
+				continue
+			}
 			if st.A.Act != "Next" {
 				t.Fatalf("unknown action %q", st.A.Act)
 			}
@@ -164,6 +175,37 @@ func zzvSidConcurrent(g, m int, next map[string]func() uint64) map[string][]uint
 	return got
 }
 
+// zzvSidBurst: g goroutines per end spin on a barrier and then allocate m identifiers each.
+func zzvSidBurst(g, m int, next map[string]func() uint64) map[string][]uint64 {
+	var mu sync.Mutex
+	got := map[string][]uint64{"D": nil, "A": nil}
+	var wg sync.WaitGroup
+	var ready atomic.Int32
+	total := int32(2 * g)
+	for _, e := range []string{"D", "A"} {
+		for i := 0; i < g; i++ {
+			wg.Add(1)
+			go func(e string) {
+				defer wg.Done()
+				f := next[e]
+				local := make([]uint64, 0, m)
+				ready.Add(1)
+				for ready.Load() < total {
+					runtime.Gosched()
+				}
+				for j := 0; j < m; j++ {
+					local = append(local, f())
+				}
+				mu.Lock()
+				got[e] = append(got[e], local...)
+				mu.Unlock()
+			}(e)
+		}
+	}
+	wg.Wait()
+	return got
+}
+
 func TestZZVStreamIdTrace(t *testing.T) {
 	g := zzvEnvInt("ZZV_G", 8)
 	m := zzvEnvInt("ZZV_M", 1000)
@@ -222,7 +264,22 @@ func TestZZVStreamIdTrace(t *testing.T) {
 			}
 		}
 	}
-	zzvEmit("summary", map[string]any{"events": events, "rounds": 2 * rounds, "goroutines": 2 * g, "allocated": st.Allocated,
+	// many FRESH allocator pairs, each hit by a burst of goroutines released together: the first allocations
+	// of an object are concurrent
+	fresh := zzvEnvInt("ZZV_FRESH", 2000)
+	fg := zzvEnvInt("ZZV_FRESH_G", 6)
+	for r := 0; r < fresh; r++ {
+		p := zzvSidNewPair()
+		got := zzvSidBurst(fg, 2, map[string]func() uint64{"D": p["D"].Next, "A": p["A"].Next})
+		sorted := zzvSidAnalyse(got, &st)
+		put(zzvSidEv{Ev: "Reset", Nx: -1})
+		for _, e := range []string{"D", "A"} {
+			for _, id := range sorted[e] {
+				put(zzvSidEv{Ev: "Next", E: e, ID: id, Nx: -1})
+			}
+		}
+	}
+	zzvEmit("summary", map[string]any{"events": events, "rounds": 2*rounds + fresh, "fresh_pairs": fresh, "goroutines": 2 * g, "allocated": st.Allocated,
 		"zero": st.Zero, "dup_per_end": st.DupPerEnd, "parity_bad": st.ParityBad, "cross_end": st.CrossEnd, "gaps": st.Gaps,
 		"samples": samples})
 }
